@@ -131,7 +131,8 @@ def _merge(results, label):
             firsts.setdefault(k, v)
     if not counts:
         return None
-    key = None if None in counts else sorted(counts)[0]       # an unexplained difference always wins
+    # one verdict per block: an unexplained difference always wins, otherwise the rarest family (all counts are reported)
+    key = None if None in counts else min(counts, key=lambda k: (counts[k], k))
     w = firsts[key]
     return {"what": "%s: %s" % (label, w["what"]), "expected": w["expected"], "observed": w["observed"], "witness": w["string"],
             "finding_key": key, "strings": total, "violating_strings": {str(k): x for k, x in counts.items()},
